@@ -12,6 +12,7 @@ RULES = {
     "C11.R1": "straight-through: backward of both quantizers and of every dequantizer returns the incoming gradient first and None for every other forward input",
     "C11.R2": "linear backward (label typing, input ranks 2..4): input/weight/bias gradients have the shapes of their primals, each guarded by needs_input_grad[i] of the matching forward parameter, returned in order; no constant factor",
     "C11.R6": "the dynamic weight path stays in the autograd graph: no no_grad / set_grad_enabled / inference_mode context and no .detach() / .data around the quantization of self.weight in qweight, forward or qforward",
+    "C11.R9": "the twin's parameters keep their own requires_grad flags: from_module copies weight and bias under no_grad and does nothing else to them (rule C08.R4 re-checked: a blanket requires_grad_ makes the bias follow the weight's flag)",
     "C11.R7": "the linear backward contracts dequantized values: no raw payload (._data) enters a matmul there (unscaled codes accumulate beyond the float16 range and would be rounded with another scale order than the forward)",
     "C11.R8": "any input layout: the linear backward flattens the incoming gradient and the saved tensors with reshape, never with view",
     "C11.R3": "no staleness: qweight is a plain property that re-quantizes self.weight on every access while unfrozen",
@@ -43,6 +44,10 @@ def run(chk):
             chk.require("C11.R3", f"{ci.mod.rel}:{p.end[2]}", ok, "unfrozen qweight quantizes the current self.weight on this very access", "QModuleMixin.qweight", "dynamic requantization", "an optimizer step is not reflected by the next forward")
     chk.floor("C11.R3", n, 1, "unfrozen qweight paths")
     grad_path(chk, ci)
+    if chk.pid == "C11":
+        from ..report import AliasedCheck
+        from . import c08
+        c08.copy_rule(AliasedCheck(chk, {"C08.R4": "C11.R9"}))
     raw_payload_backward(chk)
     # R4
     n = 0
@@ -229,6 +234,25 @@ def grad_path(chk, ci):
                 if mname == "qweight" and not frozen:
                     chk.require("C11.R6", site, not uses, f"{qn}: the float weight is used attached ({uses})", qn, "weight detached before quantization", "any training step: the weight receives no gradient")
     chk.floor("C11.R6", n, 4, "weight-path return paths")
+    # decorators change the gradient mode of the whole function; the calibration hooks hand their (re-evaluated) value to the rest of the model
+    targets = [(c, c.own(m)) for c in classes for m in ("qweight", "forward", "qforward") if c.own(m) is not None]
+    cal = repo.cls("Calibration")
+    targets += [(cal, cal.own(m)) for m in ("calibrate_input", "calibrate_output", "__torch_function__") if cal.own(m) is not None]
+    for c, fn in targets:
+        decs = [U(d) for d in fn.decorator_list if any(g in U(d) for g in GRAD_MODES)]
+        chk.require("C11.R6", f"{c.mod.rel}:{fn.lineno}", not decs, f"{c.name}.{fn.name}: no gradient-mode decorator ({decs})", f"{c.name}.{fn.name}", "gradient mode changed on the weight path",
+                    "a forward inside `with Calibration():` with autograd enabled (quantization-aware training with running calibration): the output the hook returns is detached, no gradient reaches weight, bias or input")
+    for m in ("calibrate_input", "calibrate_output"):
+        fn = cal.own(m)
+        if fn is None:
+            continue
+        for p in paths_of(fn):
+            if p.end[0] != "return" or p.end[1] is None or U(p.end[1]) == "None":
+                continue
+            modes = [U(x[1]) for x in p.ctx if x and x[0] == "with" and any(g in U(x[1]) for g in GRAD_MODES)]
+            det = [U(nd)[:40] for nd in ast.walk(p.end[1]) if isinstance(nd, ast.Call) and isinstance(nd.func, ast.Attribute) and nd.func.attr == "detach"]
+            chk.require("C11.R6", f"{cal.mod.rel}:{p.end[2]}", not modes and not det, f"Calibration.{m}: the value handed back to the model (`{U(p.end[1])[:40]}`) is evaluated with the caller's gradient mode and not detached ({modes + det})", f"Calibration.{m}",
+                        "hook output cut from the graph", "a training forward inside a Calibration context: gradients stop at the first calibrated module")
 
 
 def raw_payload_backward(chk):
